@@ -1,4 +1,5 @@
 from .common import *
+from . import c10
 
 def run(tier):
     r = Run('C02', tier)
@@ -18,11 +19,13 @@ def run(tier):
             cfgs.append((2, n, n % 5, n % 3, 2, 5))
     for th, n, ct, ht, buf, sl in cfgs:
         e2e_ob(r, 'format-T%d-len%d-c%d-h%d-chunk%d-seed%d' % (th, n, ct, ht, 16 * buf, sl), th, n, ct, ht, buf, extra=['SEEDLEN=%d' % sl], timeout=900 if tier == 'quick' else 3600)
+    # "enciphered ... in the selected NIST mode": the five real stream objects, one inductive step each (the obligations of C10)
+    c10.mode_obligations(r, tier, prefix='mode-')
     r.bounds = ['%d configurations of (T<=3, plaintext length, cipher mode 0..4, hash mode 0..2, chunk 16/32 bytes, seed length); contents, key and seed symbolic' % len(cfgs)]
-    r.outside = ['T > 3', 'production chunk size', 'cipher / hash values (C09, C10, C07, C08): here the body is compared with the padded plaintext under the invertible marker and the tag/IVs with the uninterpreted-hash reference']
+    r.outside = ['T > 3', 'production chunk size', 'block cipher and hash values (C09, C07, C08): in the end-to-end runs the body is compared with the padded plaintext under the invertible marker and the tag/IVs with the uninterpreted-hash reference; the mode objects themselves are covered by the mode-* obligations (shared with C10) with the block cipher uninterpreted']
     r.assumptions = ['as C01']
     r.run_all(jobs=10)
     return r.finish()
 
 def replay(rp):
-    return generic_replay(rp, {'kern_e2e_b1': lambda: U_kern('kern', buf=1), 'kern_e2e_b2': lambda: U_kern('kern', buf=2)})
+    return generic_replay(rp, {'kern_e2e_b1': lambda: U_kern('kern', buf=1), 'kern_e2e_b2': lambda: U_kern('kern', buf=2), 'aes': U_aes, 'aes_blkuf': U_aes})
